@@ -97,6 +97,8 @@ impl C14 {
             // what print writes to the real standard output of the shipped binary (the in-process families see the text
             // through the capture hook): formats x arguments, and amounts of text around the sizes of output buffers
             ("print-through-the-binary", if ctx.flavour == Flavour::Rel { (PRINT_FORMATS.len() * 5 + BIN_PRINTS) as u64 } else { 0 }),
+            // lengte / indexing of long strings across in-place changes and dying temporaries (props/strlife.rs)
+            ("string-lifecycle", match (ctx.flavour, ctx.tier) { (Flavour::Miri, _) => 40, (Flavour::Rel, Tier::Quick) => 4_000, (Flavour::Rel, Tier::Thorough) => 300_000, (_, Tier::Quick) => 300, _ => 5_000 }),
         ])
     }
 
@@ -104,6 +106,7 @@ impl C14 {
         let (f, name, i) = self.fams(ctx).locate(idx);
         let mut r = Rng::for_case(ctx.seed, 1400 + f as u64, i);
         let t = match name {
+            "string-lifecycle" => super::strlife::generate(&mut Rng::for_case(ctx.seed, 14_900, i), super::strlife::Focus::Builtins).text,
             "builtin-x-shape" => {
                 let b = BUILTINS[(i as usize) / self.shapes.len()];
                 let (_, e) = &self.shapes[(i as usize) % self.shapes.len()];
@@ -198,6 +201,12 @@ impl Check for C14 {
     fn run_case(&mut self, ctx: &Ctx, idx: u64, st: &mut Stats) {
         {
             let (_, name, i) = self.fams(ctx).locate(idx);
+            if name == "string-lifecycle" {
+                let mut r = Rng::for_case(ctx.seed, 14_900, i);
+                st.count("cases:string-lifecycle");
+                super::strlife::run_case(&mut r, super::strlife::Focus::Builtins, name, ctx.flavour == Flavour::Miri, st);
+                return;
+            }
             if name == "print-through-the-binary" {
                 let n_fmt = (PRINT_FORMATS.len() * 5) as u64;
                 let text = if i < n_fmt {
